@@ -382,12 +382,154 @@ func ruleComparatorDecoder(c *Ctx, rule, pkg, method string) {
 	}
 	n := 0
 	cts := comparatorTypes(c, pkg, method)
+	// one (symbol type, comparator built for it) pair
+	checkPair := func(fn *ssa.Function, kval int64, al *ssa.Alloc) {
+		want := expect[kval]
+		nm := namedOf(al.Type())
+		if nm == nil || cts[nm] == nil {
+			return // not a field comparator (the compound one is built after the loop)
+		}
+		var cmp *ssa.Function
+		ms := types.NewMethodSet(al.Type())
+		for i := 0; i < ms.Len(); i++ {
+			if ms.At(i).Obj().Name() == method {
+				cmp = p.SSA.MethodValue(ms.At(i))
+			}
+		}
+		if cmp == nil || cmp.Blocks == nil {
+			return
+		}
+		n++
+		got := map[string]bool{}
+		seenFn := map[*ssa.Function]bool{}
+		var collect func(f *ssa.Function, d int)
+		collect = func(f *ssa.Function, d int) {
+			if f == nil || f.Blocks == nil || seenFn[f] || d > 3 {
+				return
+			}
+			seenFn[f] = true
+			for _, k := range callsIn(f) {
+				var targets []*ssa.Function
+				if sc := k.Common().StaticCallee(); sc != nil {
+					targets = append(targets, sc)
+				} else if !k.Common().IsInvoke() {
+					if fld, _ := loadedField(k.Common().Value); fld != nil {
+						targets = append(targets, fieldFuncTargets(fld)...)
+					}
+				}
+				// decoders handed on as function values (compareNullable(..., FieldToInt64))
+				for _, a := range k.Common().Args {
+					if fv, isF := a.(*ssa.Function); isF {
+						targets = append(targets, fv)
+					}
+				}
+				for _, t := range targets {
+					if !inModule(t) {
+						continue
+					}
+					if et := decoderElem(t); et != "" {
+						got[et] = true
+						continue
+					}
+					collect(t, d+1)
+				}
+			}
+		}
+		collect(cmp, 0)
+		construct := FnName(fn) + ": " + names[kval] + " -> " + nm.Obj().Name()
+		if len(got) == 0 {
+			c.Undecided(rule, construct, p.Pos(al.Pos()), "cannot find the field decoder the comparator reads its values with")
+			return
+		}
+		var others []string
+		for t := range got {
+			if t != want {
+				others = append(others, t)
+			}
+		}
+		c.Check(len(others) == 0, rule, construct, p.Pos(al.Pos()), "the comparator for this symbol type reads the values with the "+want+" decoder",
+			"the comparator chosen for "+names[kval]+" reads the stored values with the "+strings.Join(others, "/")+" decoder instead of the "+want+" one: values that differ only beyond that type's precision (or are stored in the other encoding) compare equal or null, so rows come back in id order instead of value order")
+	}
+	allocsOf := func(f *ssa.Function) []*ssa.Alloc {
+		var out []*ssa.Alloc
+		for _, g := range allFuncsWithAnon(f) {
+			for _, b := range g.Blocks {
+				for _, in := range b.Instrs {
+					if al, isAl := in.(*ssa.Alloc); isAl {
+						out = append(out, al)
+					}
+				}
+			}
+		}
+		return out
+	}
 	for _, fn := range c.prodFuncs(pkg) {
 		if fn.Name() != "newRowComparator" || fn.Blocks == nil {
 			continue
 		}
 		c.Analysed(FnName(fn))
 		for _, b := range fn.Blocks {
+			// the choice written as a table keyed by the symbol type: each entry builds the comparator of its key
+			for _, in := range b.Instrs {
+				lk, isLk := in.(*ssa.Lookup)
+				if !isLk {
+					continue
+				}
+				if tcall, isCall := lk.Index.(*ssa.Call); !isCall || !invokeNamed(tcall, "GetType") {
+					continue
+				}
+				var entries []tableEntry
+				if ld, isLd := lk.X.(*ssa.UnOp); isLd {
+					if g, isG := ld.X.(*ssa.Global); isG {
+						entries, _ = constTable(g)
+					}
+				}
+				if k, isCall := lk.X.(*ssa.Call); isCall && len(entries) == 0 {
+					// ... or built by a function of the package (generic code cannot keep it in a variable)
+					if sc := k.Call.StaticCallee(); sc != nil && inModule(sc) {
+						for _, sb := range sc.Blocks {
+							for _, si := range sb.Instrs {
+								if mu, isMU := si.(*ssa.MapUpdate); isMU {
+									if kk, isK := mu.Key.(*ssa.Const); isK && kk.Value != nil {
+										entries = append(entries, tableEntry{kk.Value, mu.Value})
+									}
+								}
+							}
+						}
+					}
+				}
+				for _, e := range entries {
+					kval, exact := constant.Int64Val(constant.ToInt(e.key))
+					if _, known := expect[kval]; !exact || !known {
+						continue
+					}
+					var ef *ssa.Function
+					ev := e.val
+					if ct, isCT := ev.(*ssa.ChangeType); isCT {
+						ev = ct.X
+					}
+					switch v := ev.(type) {
+					case *ssa.Function:
+						ef = v
+					case *ssa.MakeClosure:
+						ef, _ = v.Fn.(*ssa.Function)
+					}
+					if ef == nil {
+						continue
+					}
+					for _, al := range allocsOf(ef) {
+						checkPair(fn, kval, al)
+					}
+					// a constructor named in the table that builds through a further constructor
+					for _, k := range callsIn(ef) {
+						if sc := k.Common().StaticCallee(); sc != nil && inModule(sc) && sc != ef {
+							for _, al := range allocsOf(sc) {
+								checkPair(fn, kval, al)
+							}
+						}
+					}
+				}
+			}
 			iff, isIf := b.Instrs[len(b.Instrs)-1].(*ssa.If)
 			if !isIf {
 				continue
@@ -406,14 +548,12 @@ func ruleComparatorDecoder(c *Ctx, rule, pkg, method string) {
 				continue
 			}
 			kval, exact := constant.Int64Val(constant.ToInt(k.Value))
-			want, known := expect[kval]
-			if !exact || !known {
+			if _, known := expect[kval]; !exact || !known {
 				continue
 			}
 			// blocks of this case: reachable from the true edge without passing the block that computes the tag
 			seen := map[*ssa.BasicBlock]bool{tcall.Block(): true}
 			work := []*ssa.BasicBlock{b.Succs[0]}
-			var built []*ssa.Alloc
 			for len(work) > 0 {
 				x := work[len(work)-1]
 				work = work[:len(work)-1]
@@ -423,70 +563,18 @@ func ruleComparatorDecoder(c *Ctx, rule, pkg, method string) {
 				seen[x] = true
 				for _, in := range x.Instrs {
 					if al, isAl := in.(*ssa.Alloc); isAl {
-						built = append(built, al)
+						checkPair(fn, kval, al)
+					}
+					// built by a constructor called in this case
+					if call, isCall := in.(*ssa.Call); isCall {
+						if sc := call.Call.StaticCallee(); sc != nil && inModule(sc) {
+							for _, al := range allocsOf(sc) {
+								checkPair(fn, kval, al)
+							}
+						}
 					}
 				}
 				work = append(work, x.Succs...)
-			}
-			for _, al := range built {
-				nm := namedOf(al.Type())
-				if nm == nil || cts[nm] == nil {
-					continue // not a field comparator (the compound one is built after the loop)
-				}
-				var cmp *ssa.Function
-				ms := types.NewMethodSet(al.Type())
-				for i := 0; i < ms.Len(); i++ {
-					if ms.At(i).Obj().Name() == method {
-						cmp = p.SSA.MethodValue(ms.At(i))
-					}
-				}
-				if cmp == nil || cmp.Blocks == nil {
-					continue
-				}
-				n++
-				got := map[string]bool{}
-				seenFn := map[*ssa.Function]bool{}
-				var collect func(f *ssa.Function, d int)
-				collect = func(f *ssa.Function, d int) {
-					if f == nil || f.Blocks == nil || seenFn[f] || d > 3 {
-						return
-					}
-					seenFn[f] = true
-					for _, k := range callsIn(f) {
-						var targets []*ssa.Function
-						if sc := k.Common().StaticCallee(); sc != nil {
-							targets = append(targets, sc)
-						} else if !k.Common().IsInvoke() {
-							if fld, _ := loadedField(k.Common().Value); fld != nil {
-								targets = append(targets, fieldFuncTargets(fld)...)
-							}
-						}
-						for _, t := range targets {
-							if !inModule(t) {
-								continue
-							}
-							if et := decoderElem(t); et != "" {
-								got[et] = true
-								continue
-							}
-							collect(t, d+1)
-						}
-					}
-				}
-				collect(cmp, 0)
-				construct := FnName(fn) + ": " + names[kval] + " -> " + nm.Obj().Name()
-				if len(got) == 0 {
-					c.Undecided(rule, construct, p.Pos(al.Pos()), "cannot find the field decoder the comparator reads its values with")
-					continue
-				}
-				var others []string
-				for t := range got {
-					if t != want {
-						others = append(others, t)
-					}
-				}
-				c.Check(len(others) == 0, rule, construct, p.Pos(al.Pos()), "the comparator for this symbol type reads the values with the "+want+" decoder",
-					"the comparator chosen for "+names[kval]+" reads the stored values with the "+strings.Join(others, "/")+" decoder instead of the "+want+" one: values that differ only beyond that type's precision (or are stored in the other encoding) compare equal or null, so rows come back in id order instead of value order")
 			}
 		}
 	}
